@@ -227,6 +227,8 @@ def g_fit(draw):
         X = X[:, 0, :]
     c.update(X=X, y=labels, em=gen.integer(draw, 1, 2), dask=gen.boolean(draw),
              chunks=gen.composition(draw, n, max_parts=4), isolate=gen.boolean(draw), order_seed=gen.integer(draw, 0, 999))
+    # a 3-D (samples, frames, features) Dask array may be chunked along the frame axis as well
+    c["frame_chunks"] = gen.composition(draw, frames, max_parts=3) if shape3 else None
     return c
 
 
@@ -241,6 +243,8 @@ def c_fit(ctx, case):
     data = X
     if case["dask"]:
         chunks = (tuple(case["chunks"]),) + tuple((s,) for s in X.shape[1:])
+        if X.ndim == 3 and case.get("frame_chunks"):
+            chunks = (tuple(case["chunks"]), tuple(case["frame_chunks"]), (X.shape[2],))
         data = da.from_array(X, chunks=chunks)
     ctx.note(len(set(y.tolist())) >= 2 and list(y) != sorted(y), "jfa" if case["jfa"] else "isv",
              "dask" if case["dask"] else "numpy", "3d" if X.ndim == 3 else "2d")
